@@ -48,13 +48,15 @@ func Write(w io.Writer, scalerType uint32, tables map[string][]byte) (int64, err
 	})
 
 	// prepare the header
-	entrySelector := bits.Len(uint(numTables)) - 1
 	header := &offsets{
-		ScalerType:    scalerType,
-		NumTables:     uint16(numTables),
-		SearchRange:   1 << (entrySelector + 4),
-		EntrySelector: uint16(entrySelector),
-		RangeShift:    uint16(16 * (numTables - 1<<entrySelector)),
+		ScalerType: scalerType,
+		NumTables:  uint16(numTables),
+	}
+	if numTables > 0 {
+		entrySelector := bits.Len(uint(numTables)) - 1
+		header.SearchRange = 1 << (entrySelector + 4)
+		header.EntrySelector = uint16(entrySelector)
+		header.RangeShift = uint16(16 * (numTables - 1<<entrySelector))
 	}
 
 	// temporarily clear the checksum in the "head" table
